@@ -53,7 +53,15 @@ def main():
     ok = rc1 != 0 and rc0 == 0 and "59 passed" in meta["confirmed"]["tests_with_change"]
     meta["confirmed"]["ok"] = ok
     print("confirmed:", json.dumps(meta["confirmed"]))
-    if ok:
+    if ok and os.environ.get("SEED_PRESCREEN"):
+        # pre-screen while /repo is in use by a long run: the checks read the worktree (change applied) instead
+        for c in checks:
+            t0 = time.time()
+            (rc, out) = sh("./check %s --tier quick" % c, cwd=VERIF, timeout=3600, env={"VERIF_REPO": wt})
+            lines = [l for l in out.split("\n") if l.startswith("VIOLATION") or l.startswith("  cause") or l.startswith("MACHINERY") or l.startswith("KNOWN")]
+            meta["checks"][c] = {"exit": rc, "wall_s": round(time.time() - t0, 1), "lines": lines[:12], "prescreen_on_worktree": True}
+            print(c, "exit", rc, lines[:6])
+    elif ok:
         (rc, out) = sh("git -C /repo status --porcelain")
         assert out.strip() == "", "repo not clean: " + out
         (rc, out) = sh("git -C /repo apply %s" % os.path.join(d, "patch.diff"))
